@@ -247,7 +247,8 @@ pub unsafe fn step(w: &mut World, op: &FOp) -> Result<(), String> {
             let hm = headers.as_ref().map(|h| OwnedHeaderMap::new(h));
             let head = hm.as_ref().map(|m| m.head()).unwrap_or(null());
             let ret = redirectionio_action_header_filter_filter(w.act[s], head, *code, *add_ids);
-            let clean: Vec<(String, String)> = headers.clone().unwrap_or_default().into_iter().map(|(n, v)| (n.replace('\0', ""), v.replace('\0', ""))).collect();
+            // (U+E000 stands for a byte that is not UTF-8: both sides of the comparison read it lossily, as U+FFFD)
+            let clean: Vec<(String, String)> = headers.clone().unwrap_or_default().into_iter().map(|(n, v)| (n.replace('\0', ""), v.replace('\0', "").replace('\u{e000}', "\u{fffd}"))).collect();
             if w.act[s].is_null() {
                 // contract: the very same list comes back, still owned by the caller
                 if ret != head {
@@ -586,6 +587,25 @@ fn headers_strategy() -> BoxedStrategy<Option<Vec<(String, String)>>> {
     prop_oneof![1 => Just(None), 4 => prop::collection::vec(h, 0..4).prop_map(Some)].boxed()
 }
 
+/// response heads: as above, and in one list out of six a value in a legacy encoding (one byte 0xE9, written U+E000 here)
+fn response_headers_strategy() -> BoxedStrategy<Option<Vec<(String, String)>>> {
+    (headers_strategy(), 0u8..6)
+        .prop_map(|(h, k)| match (h, k) {
+            (Some(mut v), 0) => {
+                v.push(("Content-Disposition".to_string(), "attachment; filename=\"caf\u{e000}.pdf\"".to_string()));
+                Some(v)
+            }
+            (h, _) => h,
+        })
+        .boxed()
+}
+
+pub const D44: &str = "d44-header-with-non-utf8-value-dropped-at-the-c-boundary";
+
+pub fn is_d44(case: &Case, msg: &str) -> bool {
+    msg.contains("header_filter_filter:") && case.ops.iter().any(|o| matches!(o, FOp::ActFilterHeaders { headers: Some(h), .. } if h.iter().any(|(_, v)| v.contains('\u{e000}'))))
+}
+
 fn buf_strategy() -> BoxedStrategy<BufKind> {
     prop_oneof![2 => Just(BufKind::Empty), 3 => pick(vec![1u32, 2, 97, 500, 4096, 65536]).prop_map(BufKind::Html), 2 => (pick(vec![1u32, 3, 100, 5000]), any::<u8>()).prop_map(|(n, s)| BufKind::Bytes(n, s))].boxed()
 }
@@ -617,7 +637,7 @@ pub fn strategy(with_tp: bool) -> BoxedStrategy<Case> {
         (5, (slot.clone(), prop_oneof![1 => Just(None), 1 => Just(Some("[]".to_string())), 8 => action_json.prop_map(Some)]).prop_map(|(slot, json)| FOp::ActFromJson { slot, json }).boxed()),
         (2, slot.clone().prop_map(|slot| FOp::ActSerialize { slot }).boxed()),
         (2, (slot.clone(), code.clone()).prop_map(|(slot, code)| FOp::ActStatus { slot, code }).boxed()),
-        (3, (slot.clone(), headers_strategy(), code.clone(), any::<bool>()).prop_map(|(slot, headers, code, add_ids)| FOp::ActFilterHeaders { slot, headers, code, add_ids }).boxed()),
+        (3, (slot.clone(), response_headers_strategy(), code.clone(), any::<bool>()).prop_map(|(slot, headers, code, add_ids)| FOp::ActFilterHeaders { slot, headers, code, add_ids }).boxed()),
         (1, (slot.clone(), any::<bool>(), code.clone()).prop_map(|(slot, allow, code)| FOp::ActShouldLog { slot, allow, code }).boxed()),
         (1, slot.clone().prop_map(|slot| FOp::ActDrop { slot }).boxed()),
         (5, (slot.clone(), slot.clone(), code.clone(), headers_strategy()).prop_map(|(slot, act, code, headers)| FOp::BfCreate { slot, act, code, headers }).boxed()),
@@ -650,11 +670,11 @@ pub fn run(ctx: &Ctx) -> Report {
     if rep.has_violation() {
         return rep;
     }
-    rep.add(run_part(ctx, "sequences", ctx.cases(150_000, 4_000_000), || strategy(false), check, &[]));
+    rep.add(run_part(ctx, "sequences", ctx.cases(150_000, 4_000_000), || strategy(false), check, &[KnownSig { name: D44, pred: is_d44 }]));
     if rep.has_violation() {
         return rep;
     }
-    rep.add(run_part(ctx, "sequences-with-trusted-proxies", ctx.cases(30_000, 800_000), || strategy(true), check, &[]));
+    rep.add(run_part(ctx, "sequences-with-trusted-proxies", ctx.cases(30_000, 800_000), || strategy(true), check, &[KnownSig { name: D44, pred: is_d44 }]));
     rep
 }
 
